@@ -15,6 +15,14 @@ CLAIMS = {
    text="Lean theorems characterise crypt_checksalt for every string and any dispatch table (INVALID iff NULL/empty/bad character/unrecognised; OK iff strong; LEGACY otherwise; tag-only), decide the strong set, prefix-freeness (first match = unique match) and the preferred method over the table regenerated from the tree; correspondence and an independent documented-rule classifier run over every string of length <=2 (quick) / <=3 (thorough).",
    note=TB + "The table is extracted from the compiled hash_algorithms[]; the classifier oracle is written from crypt(5)/the property text.",
    technique="Lean 4 proof (decide over generated table + general lemmas) + exhaustive short-string correspondence", ref="DESIGN.md §6 C18"),
+ "C05": dict(
+   text="Lean theorems over the API state machine, from an ARBITRARY prior object state and for any digests/configuration: NULL/long/ill-charactered/unknown requests fail (C05_reject_*), every failure has errno EINVAL or ERANGE, crypt_rn returns NULL and crypt_r the token, output holds exactly the '*0'/'*1' token (truncated for sizes 2/1, untouched for sizes <= 0), the token differs from the setting and is itself rejected, and no well-formed earlier hash survives a failing call (C05_no_stale). Correspondence + fail-closed oracle over a byte-mutation stream of every method's settings, invalid triples x sizes x prior states.",
+   note=TB + "ENOMEM (allocation failure inside yescrypt) is covered by C15; errno for those paths is EINVAL in this library. Digest-dependent characters are compared by length/alphabet only for methods whose primitive is not yet executable in the model.",
+   technique="Lean 4 proof (state machine, arbitrary pre-state) + mutation-stream correspondence", ref="DESIGN.md §6 C05"),
+ "C07": dict(
+   text="Lean theorem C07_history: for every finite history of crypt_r/crypt_rn/static crypt/crypt_gensalt/arbitrary overwrites over any number of shared objects, from every initial state, each call's (result, errno) equals a history-free function of its own arguments; C07_entry: the entry points agree. Correspondence over random histories with recurring requests, four pre-fill modes, 16 alignments; oracle: the same request never gets two different answers.",
+   note=TB + "In the model the methods cannot read the object, so the content of the claim rests on the correspondence of histories (stale-memory reads in C would show as differing answers); crypt_ra is tied in by C14.",
+   technique="Lean 4 proof by induction over histories + random-history correspondence", ref="DESIGN.md §6 C07"),
 }
 NOT_YET = "check under construction in this round; not claimed yet"
 
